@@ -600,7 +600,7 @@ def connect_body(ctx, case):
         try:
             obs1 = run_connect(case, objs, owners, const_out, list(range(case["k"])))
         except wiring.ConnectionError as e:
-            if not any(v is not None for v in owners.values()) and "Only input to input" in str(e):
+            if not any_out and "Only input to input" in str(e):     # no existing leaf has an output (zero-dimension members have no leaves)
                 # documented diagnostic: several interfaces, inputs only
                 ctx.note(case, False, "conn:inputs-only-diagnostic")
                 return
